@@ -10,4 +10,5 @@ for P in "$@"; do
   rc=$?
   echo "== $P: $(echo "$out" | grep -E "^(VIOLATION|UNDECIDED|KNOWN-FINDING|failed obligation|C[0-9]+ \[)" | cut -c1-220 | tr '\n' '|')"
 done
-rm -rf $S /verif/.cache/kani-target-scratch-* 2>/dev/null
+tag=$(python3 -c "import hashlib,sys;print(hashlib.sha1(sys.argv[1].encode()).hexdigest()[:10])" $S)
+rm -rf $S /verif/.cache/kani-target-scratch-$tag /verif/.cache/verus/scratch-$tag /verif/.cache/kani-results-scratch-$tag.json /verif/.cache/kani-scratch-$tag.lock 2>/dev/null
